@@ -6,7 +6,7 @@
 From Coq Require Import ZArith List Bool String.
 From Coq.Strings Require Import Byte.
 From EsVerif.Common Require Import Base Bytes.
-From EsVerif.C16 Require Import Model Spec ChunkProofs Proofs Ext ExtProofs Gen Tie.
+From EsVerif.C16 Require Import Model Spec ChunkProofs Proofs Ext ExtProofs Gen Tie Deep DeepProofs.
 Local Open Scope list_scope.
 
 (* The whole statement for one call o1 = f(a, inplace, keep_dtype) and the same call repeated on
@@ -269,3 +269,86 @@ Example C16_zero_d_complex :
   /\ ashape (o_res (to_native true a true false)) = []
   /\ arr_values true (o_res (to_native true a true false)) = arr_values true a.
 Proof. exact zero_d_example. Qed.
+
+(* ===== proof-deepening round *)
+(* FRAME.  inplace off (all four functions, keep_dtype either way) and recfile's to_native: the argument keeps
+   its bytes, dtype and shape and the result is another object sharing nothing -- for ANY array, no premise;
+   inplace on: shape, field structure and buffer length are kept (only order letters / byte order inside items change) *)
+Theorem C16_frame :
+  (forall ml f a keep, let o := apply f ml a false keep in o_inp o = a /\ o_same o = false /\ o_shares o = false)
+  /\ (forall ml a, o_inp (rec_to_native ml a) = a)
+  /\ (forall ml f a keep, valid_dtype (adt a) ->
+        let r := o_inp (apply f ml a true keep) in
+        ashape r = ashape a /\ same_structure (adt r) (adt a) /\ List.length (adata r) = List.length (adata a)).
+Proof. exact frame_all. Qed.
+
+(* The premise "all multi-byte fields share one order" is NECESSARY: to_native / to_big_endian / to_little_endian
+   reach the requested order on a valid array if and only if the array is uniformly ordered *)
+Theorem C16_reaches_requested_iff_uniform : forall ml f a ip, valid_dtype (adt a) -> f <> Swap ->
+  (all_order_b ml (target ml f) (adt (o_res (apply f ml a ip false))) = true <-> uniform ml (adt a)).
+Proof. exact reaches_iff_uniform. Qed.
+
+(* NESTED records, the statement itself: leaves share one order and some plain top-level field has a byte order
+   (or no leaf has one) => the real scan, which sees the top level only, meets the whole statement at both calls *)
+Theorem C16_nested_statement : forall ml f t sh data ip keep,
+  let a := {| adt := DStruct (flatten1 t); ashape := sh; adata := data |} in
+  valid_dtype (adt a) -> uniform ml (adt a) -> nested_ok t = true ->
+  let o1 := apply_top f ml (top1 t) a ip keep in
+  conv_ok ml f a ip keep o1 (apply_top f ml (top_after f ml (top1 t) keep) (o_res o1) ip keep).
+Proof. exact nested_statement. Qed.
+
+(* ... for any scan list that represents the leaves; the representation survives the relabelling *)
+Theorem C16_faithful_scan_statement : forall ml f top fs sh data ip keep,
+  let a := {| adt := DStruct fs; ashape := sh; adata := data |} in
+  valid_dtype (adt a) -> uniform ml (adt a) -> faithful ml top (adt a) ->
+  let o1 := apply_top f ml top a ip keep in
+  o1 = apply f ml a ip keep
+  /\ apply_top f ml (top_after f ml top keep) (o_res o1) ip keep = apply f ml (o_res o1) ip keep
+  /\ conv_ok ml f a ip keep o1 (apply_top f ml (top_after f ml top keep) (o_res o1) ip keep).
+Proof. exact faithful_statement. Qed.
+
+Theorem C16_nested_ok_is_faithful : forall ml t, nested_ok t = true -> faithful ml (top1 t) (DStruct (flatten1 t)).
+Proof. exact nested_ok_faithful. Qed.
+
+Example C16_nested_nonvacuous :
+  nested_ok nest_example = true
+  /\ top1 nest_example = [NA; BE]
+  /\ map fname (flatten1 nest_example) = ["pos.x"; "pos.tag"; "pos.x"; "pos.tag"; "id"]%string
+  /\ valid_dtype (DStruct (flatten1 nest_example)) /\ uniform true (DStruct (flatten1 nest_example))
+  /\ adata (o_res (apply_top ToNative true (top1 nest_example)
+                     {| adt := DStruct (flatten1 nest_example); ashape := []; adata := unhex "3f800000614000000062000a" |}
+                     false false)) = unhex "0000803f6100000040620a00".
+Proof. exact nest_example_facts. Qed.
+
+(* HISTORY.  The process as a heap of array objects: a call's answer and the new state of its object are a
+   function of that object's state alone (whatever else the process holds, whatever happened before); other
+   objects are untouched; inplace-off calls leave the whole heap as it was; calls on different objects commute *)
+Theorem C16_history_independent :
+  (forall ml h h' c, nth_error h (obj_of c) = nth_error h' (obj_of c) ->
+     snd (step ml h c) = snd (step ml h' c)
+     /\ nth_error (fst (step ml h c)) (obj_of c) = nth_error (fst (step ml h' c)) (obj_of c))
+  /\ (forall ml h c a, nth_error h (obj_of c) = Some a ->
+     snd (step ml h c) = snd (act ml c a) /\ nth_error (fst (step ml h c)) (obj_of c) = Some (fst (act ml c a)))
+  /\ (forall ml h c j, j <> obj_of c -> nth_error (fst (step ml h c)) j = nth_error h j)
+  /\ (forall ml h c, match c with CConv _ _ false _ => True | CRecNative _ => True | _ => False end ->
+     fst (step ml h c) = h)
+  /\ (forall ml h c1 c2, obj_of c1 <> obj_of c2 ->
+     snd (step ml (fst (step ml h c1)) c2) = snd (step ml h c2)
+     /\ snd (step ml (fst (step ml h c2)) c1) = snd (step ml h c1)).
+Proof. exact history_independent. Qed.
+
+Example C16_history_nonvacuous :
+  map (fun a => match a with AConv o _ => adata (o_res o) | _ => [] end)
+      (run true heap_example [CConv ToNative 0 true false; CConv ToNative 1 false false; CConv ToBig 0 true false])
+  = [unhex "0100"; unhex "003c"; unhex "0001"].
+Proof. exact heap_example_facts. Qed.
+
+(* The checkers accept EXACTLY the property (soundness was C16_checkers_sound; this adds completeness:
+   the check can raise no false alarm on the clauses of the statement) *)
+Theorem C16_checkers_exact :
+  (forall ml f a ip keep o1 o2, conv_check ml f a ip keep o1 o2 = true <-> conv_ok ml f a ip keep o1 o2)
+  /\ (forall ml o big little, predicates_check ml o big little = true <-> predicates_ok ml o big little).
+Proof. exact checkers_exact. Qed.
+
+Theorem C16_heap_answers_sound : forall x y, answer_eqb x y = true -> x = y.
+Proof. exact answer_eqb_sound. Qed.
